@@ -181,7 +181,7 @@ func c18Draws(c *Ctx, n int) {
 			for k := 0; k < per; k++ {
 				sp := sps[(g+k)%NSP]
 				kind := kinds[(g+k/NSP)%len(kinds)]
-				signed := k%97 == 0 // a few through the signing builders (same ID creation; Reference URI must name it)
+				signed := k%16 == 0 // through the signing builders, at the same k in every goroutine (two goroutines share an SP object then): the ID is created before signing and the Reference URI must name it
 				var id string
 				var err error
 				// caller-supplied values (they come from the IdP's request or from the user session) never take part in the ID
